@@ -453,6 +453,27 @@ Proof.
     + refine (Hrun g1 t1 fa1 _ Pr). destruct (auth_deliver_ok _ _ _ _ _ _ _ Ea) as [-> _]. apply frame_cput.
 Qed.
 
+
+(* The mux-level failure classes AFTER authentication — the transaction-size gas charge and the
+   consensus minimum gas price (transaction.go:86-100) — are decided BEFORE the handler runs:
+   whatever the handler is (no atomicity premise), the result is exactly the post-authentication
+   state. (An oversized transaction is a decode failure: [rejected_up_to_auth_changes_nothing].) *)
+Lemma mux_level_failures_precede_handler P exec x h size s t1 fa1 g1 :
+  tx_critical x = false ->
+  exec Deliver x = Some h ->
+  auth P Deliver (m_tree s) (m_feeacc s) x = inr (t1, fa1, g1) ->
+  ((exists e, use_gas ((size * p_byte_cost P) mod two64) g1 = inl e) \/
+   ((0 <? p_min_gas_price P) = true /\ (gas_price x <? p_min_gas_price P) = true)) ->
+  exists e g, deliver P exec (Some x) size s = (Err e, g, post_auth_state s x).
+Proof.
+  intros Hc Hx Ha Hf. unfold deliver, process_tx. rewrite Hx, Hc, Ha.
+  destruct (auth_deliver_ok _ _ _ _ _ _ _ Ha) as [-> [-> _]].
+  destruct (use_gas ((size * p_byte_cost P) mod two64) g1) as [e|g2] eqn:Eg.
+  - eexists _, _. reflexivity.
+  - destruct Hf as [[e He]|[H0 Hp]]; [discriminate|].
+    rewrite H0, Hp. cbn [negb andb]. eexists _, _. reflexivity.
+Qed.
+
 (* ---------- CheckTx / EstimateGas ---------- *)
 
 Lemma check_and_estimate_pure P exec :
@@ -526,3 +547,7 @@ Example ex_check_estimate :
   m_check (snd (check_tx exP (fun _ _ => Some (run ex_unsafe)) (Some ex_tx) 200 ex_s0)) <> m_check ex_s0 /\
   fst (estimate_gas exP (fun _ _ => Some (run ex_unsafe)) ex_tx 200 ex_s0) = 250.
 Proof. vm_compute. repeat split; discriminate. Qed.
+Example ex_underpriced :
+  exists e g, deliver (mkP 0 1 1000 0 (fun _ => false)) (fun _ _ => Some (run ex_unsafe)) (Some ex_tx) 200 ex_s0
+              = (Err e, g, post_auth_state ex_s0 ex_tx) /\ e = E_GAS_PRICE_TOO_LOW.
+Proof. eexists _, _. split; vm_compute; reflexivity. Qed.
